@@ -51,7 +51,7 @@ theorem updateStage_nil_eq (v : SetView) (cur upd : String) (reps : List (Int ×
 /-- **the actions of a Parallel, fault-free reconcile**, in order -/
 theorem recon_acts (v : SetView) (cur upd : String) (pods : List Pod) (r : Int)
     (hr : v.replicas = some r) (hpar : v.parallel = true) (hdel : v.deleting = false)
-    (hb : (maxReplicaAndSlots r v.slots).1 ≤ maxInt32) (hord : ∀ p ∈ pods, p.ord < maxInt32) :
+    :
     (updateStatefulSet v cur upd pods []).1.acts =
       (repsOf v cur upd (maxReplicaAndSlots r v.slots).1 (maxReplicaAndSlots r v.slots).2 pods).flatMap (repActs1 v cur upd) ++
       condActs (condemnedOf (maxReplicaAndSlots r v.slots).1 (maxReplicaAndSlots r v.slots).2 pods).reverse ++
@@ -59,7 +59,7 @@ theorem recon_acts (v : SetView) (cur upd : String) (pods : List Pod) (r : Int)
         (repNew v cur upd))) := by
   unfold updateStatefulSet
   cases hp : prepare v cur upd pods with
-  | error e => obtain ⟨st, o⟩ := e; exact absurd hp (prepare_calm v cur upd pods r hr hb hord st o)
+  | error e => obtain ⟨st, o⟩ := e; exact absurd hp (prepare_calm' v cur upd pods r hr st o)
   | ok p =>
     simp only [hdel, Bool.false_eq_true, if_false]
     obtain ⟨_, hreps, hcond, _, _⟩ := L1c.prepare_ok hr hp
